@@ -157,6 +157,8 @@ type Ctx struct {
 	byteArrs    map[string]bool // A1 symbols holding bytes
 	frameWrites map[string]bool // heap keys written at refs that are not fresh allocations
 	atArgs      map[string]bound  // arg0.. of the call whose at-clauses are being evaluated
+	loopEntry   map[int]*State   // state in which a loop with clauses was entered (atentry)
+	sumFuns     map[string]string // canonical summand -> array-valued function symbol (mapsum / sumvisited)
 	freshRefs   map[string]bool
 	frameCallee []string
 	variantAt   map[int]string
